@@ -174,16 +174,21 @@ CLAIMED = {
     "C04": dict(
         technique="TLA+ model checking (TLC) of DEVS.tla over the full command alphabet and of SimThreads.tla (PlusCal, one label per shared access), bound to the real simulator by replay, access-interposition scheduling of the real threads and trace validation",
         category="model_checking",
-        text="(a) all command sequences (initialize, start, step, stop, bounded runs, end_replication, cleanup, pause) up to the bound: refusals "
-             "change nothing, notification-stream invariants, ENDED final, run thread gone after ENDED/cleanup; replayed on the real simulators and "
-             "validated from recorded random command sequences. (b) SimThreads.tla models the caller and the run thread at the granularity of "
-             "accesses to run_state / replication_state / runflag / finalized / the wake-up Event, for scripts over start and stop with failing and "
-             "stop-calling handlers; TLC checks every interleaving (two race families of the pinned tree are set aside by history flags and reported "
-             "as known findings); every TLC behaviour incl. the counterexamples is executed on the REAL threads by a cooperative scheduler that "
+        text="(a) all command sequences (initialize, start, step, stop, bounded runs, end_replication, cleanup, pause) up to the bound, and "
+             "commands issued by handlers while the simulator runs (start / step / run_up_to / initialize: refused; stop: pauses after the event; "
+             "end_replication): refusals change nothing, notification-stream invariants, ENDED final, run thread gone after ENDED/cleanup; replayed "
+             "on the real simulators and validated from recorded random command sequences. (b) SimThreads.tla models the caller and the run thread "
+             "at the granularity of accesses to run_state / replication_state / runflag / finalized / the wake-up Event, for caller scripts over "
+             "start, stop, end_replication and cleanup with failing handlers, handlers that call stop(), and START_EVENT / STOP_EVENT listeners that "
+             "issue stop() / start() on the run thread; TLC checks every interleaving for nine safety invariants (six race / listener families of "
+             "the pinned tree are set aside by history flags and reported as known findings) and, under fairness of both threads and of the clock, "
+             "liveness (the threads settle, every command returns, ENDED implies the run thread terminates); every TLC behaviour incl. the "
+             "counterexamples and one path per transition of the state graph is executed on the REAL threads by a cooperative scheduler that "
              "interposes on those accesses (announced access = label, shared state = specification state), random real schedules are validated by "
              "TraceSimThreads.tla, and verdicts come from observables on the real objects at quiescence.",
-        design_ref="DESIGN.md §5 C04, §9.2",
-        note="(a) commands at quiescence; (b) assumes a runnable thread takes a step within the code's one-second waits; initialize/step/end_replication/cleanup overlap and liveness are not modelled.",
+        design_ref="DESIGN.md §5 C04, §9.2, §9.7",
+        note="(a) commands at quiescence and from handlers; (b) assumes a runnable thread takes a step within the code's one-second waits "
+             "(a spin wait times out only when the other thread is blocked or gone); initialize / step overlapping the run thread are not in the thread model.",
     ),
 }
 
